@@ -381,6 +381,49 @@ def r_copyall(prog, R):
     r.require(n >= 1, "no member-wise function table copy found")
 
 
+def r_setatomic(prog, R):
+    r = R.rule("R-C16-SETATOMIC", "a setter that rejects its argument leaves the channel as it was: no channel member is written (or cleared) on a path that still reaches a "
+               "failure return of the same call", floor=10, analysis="reachability mutation -> failure return over every public ares_set_* function")
+    n = 0
+    for f in sorted(prog.public_functions(), key=lambda x: x.key):
+        if not f.name.startswith("ares_set_") or not f.params:
+            continue
+        ch = f.params[0]["n"]
+        muts = []
+        for b, i, el in f.elements():
+            if el["k"] == "asg":
+                rv = root_var(el["e"]["l"])
+                if rv is not None and rv["n"] == ch and not is_var(strip(el["e"]["l"])):
+                    muts.append((b, i, el))
+            elif el["k"] == "call" and el["e"].get("callee") in ("memset", "memcpy") and el["e"].get("args"):
+                a = strip(el["e"]["args"][0])
+                rv = root_var(a) if a is not None else None
+                if rv is not None and rv["n"] == ch:
+                    muts.append((b, i, el))
+        n += 1
+        k = "fn=%s rejects before it mutates" % f.name
+        bad = None
+        for mb, mi, mel in muts:
+            after = reach_after(f, mb.id, mi)
+            for b, i, el in f.elements():
+                fails = False
+                if el["k"] == "ret":
+                    nm = name_of_const(el.get("e"))
+                    fails = nm is not None and nm not in ("ARES_SUCCESS", "ARES_TRUE") and nm.startswith("ARES_E")
+                elif el["k"] == "asg" and is_var(strip(el["e"]["l"])) and any(is_var(strip(x[2].get("e")), strip(el["e"]["l"])["n"]) for x in f.returns()):
+                    nm = name_of_const(el["e"].get("r"))
+                    # a validation failure (bad argument), not an allocation failure half way through the work
+                    fails = nm in ("ARES_EFORMERR", "ARES_EBADSTR", "ARES_ENOTIMP", "ARES_EBADNAME", "ARES_EBADFAMILY")
+                if fails and (b.id, i) in after:
+                    bad = (mel, el)
+        if bad:
+            r.viol(k, f.name, f.loc(bad[0]), "%s changes the channel ('%s') before the argument check at line %s that can still reject the call: a rejected call leaves the setting half-applied or wiped (for the socket function table: NULL functions that the next request calls)" % (
+                f.name, render(bad[0].get("e"))[:60], bad[1].get("ln")))
+        else:
+            r.ok(k, f.loc(f.ln), nontrivial=bool(muts))
+    r.require(n >= 10, "fewer than 10 public setters found")
+
+
 def r_exportorder(prog, R):
     r = R.rule("R-C16-EXPORTORDER", "whatever hands the server list back to the application (csv, address lists, saved options, and through them ares_dup) lists the servers in "
                "configuration order, not in the order of the health-sorted container", floor=3, analysis="comparator key order of channel->servers x walkers that export")
@@ -439,4 +482,5 @@ def run(prog, R, tier):
     r_dup(prog, R, init)
     r_copyall(prog, R)
     r_exportorder(prog, R)
+    r_setatomic(prog, R)
     outinit.outinit_rule(prog, R, "R-C16-OUTINIT", only_types=("ares_sconfig_t", "ares_options", "apattern"), floor=2)
